@@ -261,7 +261,9 @@ TEnd ==
                  /\ (Ev.st = "ok" => cl.done)
                  /\ UNCHANGED vars /\ UNCHANGED <<calls, taint>>
             [] cl.op \in {"ack", "nack", "reject"} ->
-                 /\ ((Ev.st = "ok" /\ cl.h0 /\ cl.i \notin taint) => cl.done)    \* (a call on a message the caller does not hold is the caller's fault)
+                 \* (a call on a message the caller does not hold is the caller's fault; a message that a concurrent finish() of
+                 \*  its consumer returned while the call was under way is back in its queue: the call had nothing left to do)
+                 /\ ((Ev.st = "ok" /\ cl.h0 /\ cl.i \notin taint /\ Held(cl.c, cl.i)) => cl.done)
                  /\ UNCHANGED vars /\ UNCHANGED <<calls, taint>>
             [] cl.op = "requeue" ->
                  /\ ((Ev.st = "ok" /\ cl.h0 /\ cl.i \notin taint) => cl.done)
